@@ -2181,7 +2181,8 @@ fn clean_block_string_literal(source: &str) -> String {
     }
 
     let lines_vec: Vec<String> = formatted_lines.into_iter().collect();
-    lines_vec.join("\n")
+    // The only escape sequence of a block string is \""", which stands for """
+    lines_vec.join("\n").replace("\\\"\"\"", "\"\"\"")
 }
 
 fn get_common_indent(source: &str) -> usize {
